@@ -169,7 +169,7 @@ def garbage(tier, rnd):
         out.append(bytes([first, 0]))
         for b in (alpha if tier == "thorough" else [0x00, 0x02, 0xFF]):
             out.append(bytes([first, 1, b]))
-        if first & 0x0F == 0 or tier == "thorough":
+        if first & 0x0F == 0 or (tier == "thorough" and first & 0x0F in (2, 8, 10, 15)):
             for b1 in alpha:
                 for b2 in (alpha if tier == "thorough" else [0x00, 0x01, 0xFF]):
                     out.append(bytes([first, 2, b1, b2]))
@@ -183,7 +183,7 @@ def garbage(tier, rnd):
     out.append(bytes([0x30, 0x80, 0x80, 0x80, 0x80, 0x01, 0, 0]))      # five-byte remaining length
     out.append(W.frame(0x90, W.i16(1)))                                  # SUBACK without return codes
     out.append(W.frame(0x20, b"\x00"))                                   # CONNACK one byte short
-    for _ in range(200 if tier == "quick" else 5000):
+    for _ in range(200 if tier == "quick" else 3000):
         out.append(bytes(rnd.randrange(256) for _ in range(rnd.randint(1, 9))))
     return out
 
@@ -196,9 +196,10 @@ def fam_inject(out, tier, rnd):
     rnd.shuffle(inj)
     combos = [(prof, sit) for prof in ("pub", "sub", "both") for sit in SITUATIONS]
     k = 0
-    per = len(inj) if tier == "thorough" else max(1, len(inj) // 14)
+    # every (profile, situation) gets a different slice of the injections: 1/14 of them (quick), 1/3 (thorough)
+    per = max(1, len(inj) // (4 if tier == "thorough" else 14))
     for prof, sit in combos:
-        todo = inj if tier == "thorough" else [inj[(k * 7919 + j) % len(inj)] for j in range(per)]
+        todo = [inj[(k * 7919 + j) % len(inj)] for j in range(per)]
         k += 1
         i = 0
         while i < len(todo):
